@@ -28,7 +28,7 @@ def counts_add(cnt, g, ctx):
         prev = True if i == 0 else cnt[i - 1]
         new.append(Or_(cnt[i], And_(g, prev)))
     ov = And_(g, cnt[MAXM - 1])
-    if not (isinstance(ov, bool) and not ov):
+    if ov is not False:
         ctx.overflow.append(ov)
     return new
 
@@ -41,7 +41,7 @@ def counts_sum(a, b, ctx):
     for k in range(1, MAXM + 1):
         new.append(OrL([And_(ge(a, i), ge(b, k - i)) for i in range(0, k + 1)]))
     ov = OrL([And_(ge(a, i), ge(b, MAXM + 1 - i)) for i in range(1, MAXM + 1)])
-    if not (isinstance(ov, bool) and not ov):
+    if ov is not False:
         ctx.overflow.append(ov)
     return new
 
@@ -58,7 +58,7 @@ class Iter:
     """A finite iterator: list of (cond, item); item present iff cond."""
 
     def __init__(self, items):
-        self.items = [(c, v) for c, v in items if not (isinstance(c, bool) and not c)]
+        self.items = [(c, v) for c, v in items if c is not False]
         self.pos = 0  # for next(): number of leading items consumed (only supported on concrete prefix)
 
     def clone(self):
@@ -288,31 +288,14 @@ class LatSet:
 
 
 def prune_twice(obj, ctx):
-    """sound simplification: if the solver shows that no database puts any entry of this multiset
-    object twice, the 'second copy' bits become literally False (halves every later iteration)."""
-    if ctx.solver is None:
-        return
+    """(conditions are canonical BDDs: an impossible second copy is already the constant False)"""
     ctx.checkpoint()
-    if isinstance(obj, Multi):
-        cells = [c for vs in obj.d.values() for c in vs.values()]
-    elif isinstance(obj, RelVec):
-        cells = list(obj.d.values())
-    else:
-        return
-    for lvl in range(MAXM - 1, 0, -1):
-        conds = [c[lvl] for c in cells if not (isinstance(c[lvl], bool) and not c[lvl])]
-        if not conds:
-            continue
-        if ctx.sat(OrL(conds)):
-            return
-        for c in cells:
-            c[lvl] = False
 
 
 def merge_step(new, delta, total, g, ctx):
     """RelIndexMerge::merge_delta_to_total_new_to_delta under guard g (contract):
     total += delta; delta = new; new = empty.  Objects are updated in place."""
-    if isinstance(g, bool) and g:
+    if g is True:
         total.absorb(delta, True, ctx)
         delta.d = new.d
         new.d = {}
@@ -320,7 +303,7 @@ def merge_step(new, delta, total, g, ctx):
         prune_twice(total, ctx)
         ctx.compact([delta, total])
         return
-    if isinstance(g, bool) and not g:
+    if g is False:
         return
     total.absorb(delta, g, ctx)
     cls = type(delta)
@@ -417,11 +400,11 @@ class LatVec:
             ent = self.rows.get((key, s))
             ex = ent[0] if ent else False
             here = And_(g, used_before, Not_(ex))
-            if not (isinstance(here, bool) and not here):
+            if here is not False:
                 alts.append((here, (key, s)))
             used_before = And_(used_before, ex)
         ov = And_(g, used_before)
-        if not (isinstance(ov, bool) and not ov):
+        if ov is not False:
             ctx.overflow.append(ov)
         for here, rid in alts:
             ent = self.rows.get(rid)
@@ -449,7 +432,7 @@ class LatVec:
             return []
         ex, valts = ent
         miss = And_(pc, Not_(ex))
-        if not (isinstance(miss, bool) and not miss):
+        if miss is not False:
             ctx.panics.append(miss)
         key = rid[0]
         return [(And_(ex, c), tuple(key) + (v,)) for c, v in valts]
